@@ -297,3 +297,4 @@ from engine.harness import borrowed  # noqa: E402
 HARNESSES.append(borrowed("c05", "H05-mem", "H09-delayed-liveness"))      # a due delayed message is picked up while a slot is free
 HARNESSES.append(borrowed("c11", "H11-router", "H09-routers"))            # every included router's actors are served
 HARNESSES.append(borrowed("c11", "H11-worker", "H09-routers-worker"))
+HARNESSES.append(borrowed("c05", "H05-mem-steady-load", "H09-due-under-load"))   # a due retry or deferred job is executed although the backlog never runs empty
